@@ -1,4 +1,5 @@
 import AcraModel.KeystoreSec.PathLemmas
+import AcraModel.Generated.KeystoreSec
 /-!
 # C07 — keys at rest are encrypted, bound to their owner, tamper-evident and confined
 
@@ -7,6 +8,41 @@ Property theorems only. Part 1 (this section): confinement of the v2 directory b
 -/
 namespace AcraModel.Props.C07
 open AcraModel AcraModel.KeystoreSec AcraModel.KeystoreSec.Path
+
+/-! ## facts the models need from the source (regenerated on every run) -/
+open Generated.KeystoreSec in
+/-- Every path-taking method of the directory back end maps its key path(s) through `osPath` before
+touching the file system, and `osPath` judges the joined path by `filepath.Rel` to the root (the
+repaired check the model `Path.osPath` follows). -/
+theorem fact_backend_paths :
+    osPathCalls = ["filepath.Join", "pathSeparators.Replace", "filepath.Rel", "strings.HasPrefix"] ∧
+    backendGetCalls.head? = some "b.osPath" ∧ backendPutCalls.head? = some "b.osPath" ∧
+    backendRenameCalls.take 2 = ["b.osPath", "b.osPath"] ∧ backendRenameNXCalls.take 2 = ["b.osPath", "b.osPath"] := by decide
+
+open Generated.KeystoreSec in
+/-- **Encrypt before write (v2).** In `addKeyData` the only value ever assigned to the stored
+`PrivateKey` / `SymmetricKey` field is the result of `encryptPrivateKey` / `encryptSymmetricKey`
+(the public key is stored as given), and those go through `KeyRing.encrypt` → `KeyStore.encrypt` →
+`KeyEncryptor.Encrypt` with the context chain private/symmetric-key context → key-ring context →
+key-store context. -/
+theorem fact_v2_encrypt_before_write :
+    addKeyDataAssigns = ["newData.PublicKey=data.PublicKey", "newData.PrivateKey=encryptedPrivateKey", "newData.SymmetricKey=encryptedSymmetricKey"] ∧
+    addKeyDataEncrypted = ["encryptedPrivateKey=r.encryptPrivateKey()", "encryptedSymmetricKey=r.encryptSymmetricKey()"] ∧
+    encryptPrivateKeyCalls = ["r.encrypt", "r.privateKeyContext"] ∧
+    encryptSymmetricKeyCalls = ["r.encrypt", "r.symmetricKeyContext"] ∧
+    ringEncryptCalls = ["r.store.encrypt", "r.keyRingContext"] ∧
+    storeEncryptCalls = ["keystoreV1.NewEmptyKeyContext", "s.keyStoreContext", "s.encryptor.Encrypt"] := by decide
+
+open Generated.KeystoreSec in
+/-- **Encrypt before write (v1).** What `SaveKeyPairWithFilename` / `generateAndSaveSymmetricKey`
+hand to `WritePrivateKey` is the output of `encryptor.Encrypt`; what reaches the cache is the output
+of `cacheEncryptor.Encrypt` (or the public key). -/
+theorem fact_v1_encrypt_before_write :
+    v1SaveKeyPairPrivateArg = ["encryptedPrivate"] ∧
+    v1SaveKeyPairAssigns = ["encryptedPrivate=store.encryptor.Encrypt()", "cacheEncryptedPrivate=store.cacheEncryptor.Encrypt()"] ∧
+    v1SaveKeyPairCacheArgs = ["cacheEncryptedPrivate", "keypair.Public.Value"] ∧
+    v1SaveSymmetricArg = ["encryptedSymKey"] ∧ v1SaveSymmetricAssigns = ["encryptedSymKey=store.encryptor.Encrypt()"] ∧
+    v1LoadKeyAndCacheAddArg = ["cacheEncrypted"] ∧ v1LoadKeyAndCacheAssigns = ["cacheEncrypted=store.cacheEncryptor.Encrypt()"] := by decide
 
 /-! ## confinement -/
 
